@@ -577,7 +577,7 @@ func checkD2(c *Ctx, pr *prioRoles) {
 					}
 					if _, isSl := st.Val.(*ssa.Slice); isSl {
 						trunc = in
-					} else if df := p.delegatedFilter(st, field); df != nil && df.sameField && df.truncated {
+					} else if df := p.delegatedFilter(st, field); df != nil && df.sameField && df.truncated && len(InstrDomEdges(in)) == 0 {
 						// the delegated filter starts from list[:0] itself
 					} else {
 						app = in
@@ -587,7 +587,9 @@ func checkD2(c *Ctx, pr *prioRoles) {
 			if app == nil {
 				continue
 			}
-			okT := trunc != nil && instrDominates(trunc, app) && !blockInLoop(trunc.Block())
+			// (emptied unconditionally: a rebuild that is skipped on some path leaves the list of an
+			// earlier round in place)
+			okT := trunc != nil && instrDominates(trunc, app) && !blockInLoop(trunc.Block()) && len(InstrDomEdges(trunc)) == 0
 			c.R.Check(okT, "D2", p.FnKey(fn)+"#"+field+"-truncate", p.InstrPos(app), "list emptied before it is rebuilt", "the "+field+" list is appended to without being emptied first: entries of earlier rounds stay and the divider is given duplicates")
 		}
 	}
